@@ -127,6 +127,16 @@ main(void) {
 			fflush(stdout);
 			continue;
 		}
+		if (h_line[0] == 'V') { /* V <table list> : lou_checkTable with message counts by level */
+			char *a = h_line + 1;
+			int c0[8], k, r;
+			while (*a == ' ') a++;
+			for (k = 0; k < 8; k++) c0[k] = h_logcount[k];
+			r = lou_checkTable(a);
+			printf("V %d errors=%d warnings=%d fatal=%d\n", r, h_logcount[4] - c0[4], h_logcount[3] - c0[3], h_logcount[5] - c0[5]);
+			fflush(stdout);
+			continue;
+		}
 		if (h_line[0] == 'G') { /* G <table list> : pointer identity class and files opened by this lookup */
 			char *a = h_line + 1;
 			int o0 = opens_total;
